@@ -40,13 +40,17 @@ type plan struct {
 	Balancer string
 	PollMax  int
 	Work     time.Duration // simulated processing time between poll and End
-	Steps    []step
+	// PollFirst selects the loop shape of the repository's EOS example (poll, then Begin,
+	// produce, End: a rebalance can land between the poll and Begin) instead of Begin, poll, produce, End.
+	PollFirst bool
+	Steps     []step
 }
 
 func genPlan(t *rapid.T) plan {
 	p := plan{Brokers: rapid.IntRange(1, 3).Draw(t, "brokers"), InParts: int32(rapid.IntRange(1, 4).Draw(t, "inparts")), OutParts: int32(rapid.IntRange(1, 2).Draw(t, "outparts")),
 		Prefill: rapid.IntRange(3, 12).Draw(t, "prefill"), Slots: rapid.IntRange(1, 4).Draw(t, "slots"), Balancer: rapid.SampledFrom([]string{"coop", "coop", "range", "sticky"}).Draw(t, "balancer"),
 		PollMax: rapid.SampledFrom([]int{0, 2, 5}).Draw(t, "pollmax"), Work: rapid.SampledFrom([]time.Duration{0, 20 * time.Millisecond, 400 * time.Millisecond}).Draw(t, "work")}
+	p.PollFirst = rapid.Bool().Draw(t, "pollfirst")
 	n := rapid.IntRange(2, 16).Draw(t, "nsteps")
 	kinds := []string{"join", "join", "leave", "restart", "netfault", "netfault", "netfault", "killall", "append", "append", "sleep"}
 	for i := 0; i < n; i++ {
@@ -147,8 +151,14 @@ func TestExactlyOncePipeline(t *testing.T) {
 									return
 								default:
 								}
-								if err := sess.Begin(); err != nil {
-									e.Log.Add("begin-err", int64(slot), m.name, err, 0, 0)
+								begin := func() bool {
+									if err := sess.Begin(); err != nil {
+										e.Log.Add("begin-err", int64(slot), m.name, err, 0, 0)
+										return false
+									}
+									return true
+								}
+								if !p.PollFirst && !begin() {
 									return
 								}
 								pc, cancel := context.WithTimeout(ctx, time.Second)
@@ -161,6 +171,14 @@ func TestExactlyOncePipeline(t *testing.T) {
 								cancel()
 								if fs.IsClientClosed() {
 									return
+								}
+								if p.PollFirst {
+									if p.Work > 0 && fs.NumRecords() > 0 {
+										time.Sleep(p.Work) // processing before the transaction begins
+									}
+									if !begin() {
+										return
+									}
 								}
 								n := 0
 								fs.EachRecord(func(r *kgo.Record) {
@@ -337,8 +355,15 @@ func TestExactlyOncePipeline(t *testing.T) {
 			ev.Class("session-restarted-after-End-error")
 		}
 		ev.Class("balancer:" + p.Balancer)
+		if p.PollFirst {
+			ev.Class("loop:poll-then-begin")
+		} else {
+			ev.Class("loop:begin-then-poll")
+		}
 		if nt {
-			ev.SampleIf(func() any { return map[string]any{"plan": fmt.Sprintf("%+v", p), "rebalances": rebalances, "restarts": restarts} })
+			ev.SampleIf(func() any {
+				return map[string]any{"plan": fmt.Sprintf("%+v", p), "rebalances": rebalances, "restarts": restarts}
+			})
 		}
 	})
 }
